@@ -123,7 +123,7 @@ func init() {
 }
 
 var c15MainFaults = []string{"good", "missing", "directory", "empty", "malformed", "wrong-shape", "binary", "unreadable", "unset", "symlink", "dangling"}
-var c15PersonalFaults = []string{"absent", "good", "empty", "malformed", "directory", "unreadable", "unset", "symlink", "dangling"}
+var c15PersonalFaults = []string{"absent", "good", "empty", "malformed", "directory", "unreadable", "unset", "symlink", "dangling", "loop"}
 var c15BackupFaults = []string{"absent", "good", "malformed", "empty"}
 
 var c15MainCmds = []database.Command{
@@ -151,6 +151,8 @@ func c15Materialise(dir, name, fault string, cmds []database.Command) string {
 		os.MkdirAll(filepath.Dir(real), 0o755)
 		os.WriteFile(real, gen.EmitYAML(cmds), 0o644)
 		os.Symlink(real, p)
+	case "loop": // a symbolic link to itself: the file is there but cannot be opened (ELOOP), a broken notebook
+		os.Symlink(p, p)
 	case "dangling": // a symbolic link whose target is gone: a file that is not there
 		os.Symlink(filepath.Join(dir, "store", "gone-"+name), p)
 	case "directory":
